@@ -21,7 +21,13 @@ RULE = ('E1: every public encoder (21 functions of pamqp.encode, by_type '
         'every argument of every method class and every property x the '
         'adversarial alphabet of its type (set after construction) with the '
         'other arguments default; channel, body size and version octets out '
-        'of range. Oracle: the call raises, or decoding its output yields a '
+        'of range; dense sweeps: every integer -66000..66000 (thorough '
+        '-140000..140000) and +-300 around +-2^31 2^32 2^63 2^64 through '
+        'each of the 8 integer encoders; 9 base instants x 62 seconds x 6 '
+        'microsecond values x 6 zone offsets; every Decimal coefficient '
+        '-1100..1100 x exponent -8..3 and +-40 around 2^31; floats i/8 and '
+        'm*2^k for every k -1080..1024; strings, table keys and arrays of '
+        'every length 0..299 in 1-4 byte characters. Oracle: the call raises, or decoding its output yields a '
         'value == the normalised input (and every other argument '
         'unchanged). A case is (entry point, value); non-trivial = all.')
 BOUNDS = {'quick': {'decimal_exponents': '-300..12', 'pairs_of_bits': 'no'},
@@ -540,8 +546,130 @@ def check_envelope_args(ctx):
             ctx.outcome('round-trip')
 
 
+INT_ENCODERS = ['octet', 'short_short_int', 'short_int', 'short_uint',
+                'long_int', 'long_uint', 'long_long_int', 'table_integer']
+DENSE = ['int:' + n for n in INT_ENCODERS] + [
+    'timestamps', 'decimals', 'floats', 'strings', 'keys', 'arrays']
+
+
+def simple_pairs():
+    """label -> (encoder, decoder, None-means-empty-table)"""
+    p = lib.pamqp()
+    e, d = p.encode, p.decode
+    out = {}
+    for name, dec in (('octet', d.octet), ('short_short_int',
+                                           d.short_short_int),
+                      ('short_int', d.short_int), ('short_uint', d.short_uint),
+                      ('long_int', d.long_int), ('long_uint', d.long_uint),
+                      ('long_long_int', d.long_long_int),
+                      ('table_integer', d.embedded_value),
+                      ('timestamp', d.timestamp), ('decimal', d.decimal),
+                      ('floating_point', d.floating_point),
+                      ('double', d.double), ('short_string', d.short_str),
+                      ('long_string', d.long_str),
+                      ('field_table', d.field_table),
+                      ('field_array', d.field_array),
+                      ('encode_table_value', d.embedded_value)):
+        enc = getattr(e, name, None)
+        if enc is not None:
+            out['encode.' + name] = (enc, dec, name == 'field_table')
+    return out
+
+
+def dense_values(kind, tier):
+    """(encoder label, value) for every value of a dense range."""
+    wide = tier == 'thorough'
+    if kind.startswith('int:'):
+        label = 'encode.' + kind[4:]
+        span = 140000 if wide else 66000
+        for n in range(-span, span + 1):
+            yield label, n
+        for k in (31, 32, 63, 64):
+            for sgn in (1, -1):
+                for dlt in range(-300, 301):
+                    yield label, sgn * 2**k + dlt
+        for n in range(0, 300):
+            yield label, bool(n & 1) if n < 2 else float(n)   # wrong types
+    elif kind == 'timestamps':
+        dt = datetime.datetime
+        offsets = [None, UTC, A.FIXED_OFFSETS[0], A.FIXED_OFFSETS[1],
+                   datetime.timezone(datetime.timedelta(seconds=-12345)),
+                   datetime.timezone(datetime.timedelta(hours=14))]
+        bases = [0, 59, 86399, 86400, 951782400, 1600000000, 2**31 - 2,
+                 2**31, 2**32 - 130]
+        for base in bases:
+            for sec in range(0, 125 if wide else 62):
+                for us in (0, 1, 499999, 500000, 500001, 999999):
+                    for tz in offsets:
+                        v = A.dt(base + sec, UTC, us)
+                        if tz is None:
+                            v = v.replace(tzinfo=None)
+                        else:
+                            v = v.astimezone(tz)
+                        yield 'encode.timestamp', v
+                yield 'encode.timestamp', time.gmtime(base + sec)
+    elif kind == 'decimals':
+        for coeff in range(-1100, 1101):
+            for e in range(-8, 4):
+                yield 'encode.decimal', D(coeff).scaleb(e)
+        for coeff in range(2**31 - 40, 2**31 + 40):
+            for e in (0, -1, -3, -255, -256, 1):
+                yield 'encode.decimal', D(coeff).scaleb(e)
+                yield 'encode.decimal', D(-coeff).scaleb(e)
+        for digits in range(1, 12):          # trailing zeros, both spellings
+            for z in range(0, 8):
+                yield 'encode.decimal', D('1' * digits + '0' * z)
+                yield 'encode.decimal', D('1' * digits + '.' + '0' * z
+                                          if z else '1' * digits)
+                yield 'encode.decimal', D('1' * digits + 'E+%d' % z)
+    elif kind == 'floats':
+        for label in ('encode.floating_point', 'encode.double',
+                      'encode_table_value'):
+            label = label if label.startswith('encode.') else \
+                'encode.' + label
+            for i in range(-2000, 2001):
+                yield label, i / 8
+            for k in range(-1080, 1025):
+                for m in (1.0, 1.5, -1.0, 1.0000001):
+                    try:
+                        yield label, math.ldexp(m, k)
+                    except OverflowError:
+                        pass
+    elif kind == 'strings':
+        for n in range(0, 300):
+            for ch in ('a', 'é', '€', '\U0001F600'):
+                yield 'encode.short_string', ch * n
+                yield 'encode.short_string', 'a' + ch * n
+                yield 'encode.encode_table_value', ch * n
+        for n in list(range(65400, 65700, 1)) + [2**16 * 2, 2**16 * 3 + 1]:
+            yield 'encode.long_string', 'a' * n
+            yield 'encode.long_string', 'é' * (n // 2) + 'a' * (n % 2)
+    elif kind == 'keys':
+        for n in range(0, 300):
+            for ch in ('k', 'é', '€'):
+                yield 'encode.field_table', {ch * n: n}
+                yield 'encode.field_table', {ch * n: [n], 'z': {ch * n: n}}
+    elif kind == 'arrays':
+        for n in range(0, 300):
+            yield 'encode.field_array', list(range(n))
+            yield 'encode.field_array', [2**40] * n
+            yield 'encode.field_array', ['s' * n]
+            yield 'encode.field_array', [None] * n + [n]
+            yield 'encode.field_table', {'k%03d' % i: i for i in range(n)}
+
+
+def check_dense(ctx, kind):
+    pairs = simple_pairs()
+    for label, v in dense_values(kind, ctx.tier):
+        if label not in pairs:
+            continue
+        enc, dec, tn = pairs[label]
+        judge(ctx, label, v, enc, dec, table_none=tn)
+
+
 def tasks(tier, seed):
     out = [('encoders',), ('bit',), ('envelope',), ('props',)]
+    out += [('dense', k) for k in DENSE]
     out += [('method', m.name) for m in spec_table.METHODS if m.args]
     return out
 
@@ -554,6 +682,8 @@ def run(task, ctx):
         check_bit(ctx)
     elif kind == 'envelope':
         check_envelope_args(ctx)
+    elif kind == 'dense':
+        check_dense(ctx, task[1])
     elif kind == 'props':
         for name, wt, _b in spec_table.PROPERTIES:
             vals = adversarial_for(wt)
@@ -590,6 +720,10 @@ def replay(case, ctx):
         check_bit(ctx)
         ctx.violations = [v for v in ctx.violations if v['case'] == case] \
             or ctx.violations
+    elif kind == 'encoder' and case['label'] in simple_pairs():
+        enc, dec, tn = simple_pairs()[case['label']]
+        judge(ctx, case['label'], fromjson(case['value']), enc, dec,
+              table_none=tn)
     elif kind == 'encoder':
         check_encoders(ctx)
         ctx.violations = [v for v in ctx.violations
